@@ -203,10 +203,23 @@ pub fn execute_vote(
 
     // update vote tally
     prop.votes.add_vote(vote, vote_power);
+    let was_open = prop.status == Status::Open;
     prop.update_status(&env.block);
     PROPOSALS.save(deps.storage, proposal_id, &prop)?;
 
-    Ok(Response::new()
+    // A proposal rejected by this vote can never be closed (close refuses Rejected proposals),
+    // so this is the only moment its deposit can be returned.
+    let mut response = Response::new();
+    if was_open && prop.status == Status::Rejected {
+        if let Some(deposit) = &prop.deposit {
+            if deposit.refund_failed_proposals {
+                response =
+                    response.add_message(deposit.get_return_deposit_message(&prop.proposer)?);
+            }
+        }
+    }
+
+    Ok(response
         .add_attribute("action", "vote")
         .add_attribute("sender", info.sender)
         .add_attribute("proposal_id", proposal_id.to_string())
